@@ -51,6 +51,7 @@ def build_class(defn, log, real_router=None):
     kinds_of = {}
     for li, lv in enumerate(defn["levels"]):
         ns = {"name": defn["name"]}
+        pending = []
         for g in lv["groups"]:
             vecs = {}
             for v in g["vectors"]:
@@ -64,7 +65,7 @@ def build_class(defn, log, real_router=None):
                     ed = eclass[v["kind"]](e["name"], **kw)
                     elems[e["key"]] = ed
                     for h in e["handlers"]:
-                        ns["h_%04d" % h["id"]] = make_handler(on, etype, ed, h, v["kind"], log)
+                        pending.append((ed, h, v["kind"]))
                 kw = {"label": v["label"], "state": v["state"], "enabled": v["enabled"], "elements": elems}
                 if v["kind"] != "Light":
                     kw.update(perm=v["perm"], timeout=v["timeout"])
@@ -73,9 +74,48 @@ def build_class(defn, log, real_router=None):
                 vecs[v["key"]] = vclass[v["kind"]](v["name"], **kw)
                 kinds_of[v["name"]] = v["kind"]
             ns[g["key"]] = P.Group(g["name"], enabled=g["enabled"], vectors=vecs)
+        # handlers: one method per subscription, or - for some neighbours with different (element, event) pairs and the
+        # same nature - ONE method carrying two stacked @on(...) decorators
+        pending.sort(key=lambda t: t[1]["id"])
+        k = 0
+        while k < len(pending):
+            ed, h, kind = pending[k]
+            nxt = pending[k + 1] if k + 1 < len(pending) else None
+            if (nxt is not None and h["id"] % 3 == 0 and nxt[1]["id"] == h["id"] + 1 and bool(nxt[1].get("coro")) == bool(h.get("coro"))
+                    and (nxt[0] is not ed or nxt[1]["event"] != h["event"])):
+                ns["h_%04d" % h["id"]] = make_stacked_handler(on, etype, [(ed, h, kind), nxt], log)
+                k += 2
+            else:
+                ns["h_%04d" % h["id"]] = make_handler(on, etype, ed, h, kind, log)
+                k += 1
         base = type("Gen%d_%d" % (_n[0], li), (base,), ns)
+        if li + 1 < len(defn["levels"]) and (_n[0] + li) % 2 == 0:
+            # an application may run the base driver as well: build one (on a router of its own) before the derived class is used
+            base(router=FakeRouter([]))
     inst = base(router=real_router if real_router is not None else FakeRouter(log))
     return inst, kinds_of
+
+
+def make_stacked_handler(on, etype, subs, log):
+    """one method subscribed twice: @on(e1, T1) @on(e2, T2) def handler(self, event)"""
+    plain = {}
+    for edef, h, kind in subs:
+        plain[(id(edef), etype[h["event"]])] = make_handler(lambda *a: (lambda f: f), etype, edef, h, kind, log)
+    coro = bool(subs[0][1].get("coro"))
+
+    def which(event):
+        return plain[(id(event.element._definition), type(event))]
+    if coro:
+        async def handler(self, event):
+            await which(event)(self, event)
+    else:
+        def handler(self, event):
+            which(event)(self, event)
+    handler.__name__ = "h_%04d" % subs[0][1]["id"]
+    fn = handler
+    for edef, h, kind in reversed(subs):
+        fn = on(edef, etype[h["event"]])(fn)
+    return fn
 
 
 def make_handler(on, etype, edef, h, kind, log):
